@@ -99,4 +99,54 @@ def run(ck):
         t = schednorm.dualize(trees[name]) if name == 'prover' else trees[name]
         d = schednorm.compare(t, schednorm.dualize(gold), '', name, 'golden')
         ck.record('C01.R3', f'{name}~golden', d is None, 'equals the golden PLONK schedule', f'{name} schedule deviates from the golden schedule: {d}')
+    r4_query_indexing(ck, w)
     ck.notes.append('normalised verifier schedule:\n' + '\n'.join(sched.show(trees['verifier'], with_loc=False)))
+
+
+def r4_query_indexing(ck, w):
+    """Opening queries: evaluations are indexed per QUERY, commitments per COLUMN."""
+    from ..core import walk, peel, pat_bindings, expr_str
+    from ..engines import hirq
+    ck.rule('C01.R4', 'opening-query construction in the verifier: inside every closure that iterates `cs.*_queries`, a vector of evaluations (element type: the '
+                      'scalar field) is indexed by the position of the query in that list (the `enumerate` index), and a vector of commitments by '
+                      '`column.index()`.  Evaluations are read one per query, so indexing them by column picks another query\'s evaluation as soon as a column '
+                      'is queried twice or columns are queried out of order — honest proofs are then rejected.')
+    f = w.fn('midnight_proofs::plonk::verifier::verify_algebraic_constraints')
+    n_sites = 0
+    fams = set()
+    for n in walk(f['body']):
+        if n.get('k') != 'mcall' or not any(peel(a).get('k') == 'closure' for a in n.get('args', [])):
+            continue
+        e, ms = peel(n['recv']), []
+        while e.get('k') == 'mcall':
+            ms.append(e['m'])
+            e = peel(e['recv'])
+        if not (e.get('k') == 'field' and e['n'].endswith('_queries')) or 'iter' not in ms:
+            continue
+        fam = e['n']
+        for a in n['args']:
+            a = peel(a)
+            if a.get('k') != 'closure':
+                continue
+            binds = [b for p in a['params'] for b in pat_bindings(p)]
+            enum_idx = {b['i'] for b in binds if b.get('t') == 'usize'} if 'enumerate' in ms else set()
+            for x in walk(a['body']):
+                if x.get('k') != 'index' or 'Range' in (x.get('ixt') or ''):
+                    continue
+                rt = (x.get('t') or '')
+                by_column = any(m.get('m') == 'index' and 'Column' in (peel(m['recv']).get('t') or '') for m in hirq.calls(x['i']))
+                by_enum = peel(x['i']).get('k') == 'local' and peel(x['i'])['i'] in enum_idx
+                is_eval = rt == 'F'
+                is_comm = 'Commitment' in rt
+                if not (is_eval or is_comm):
+                    continue
+                n_sites += 1
+                fams.add(fam)
+                ok = (is_eval and by_enum and not by_column) or (is_comm and by_column)
+                ck.record('C01.R4', f'{fam}|{expr_str(x["e"])[:40]}', ok,
+                          'evaluation indexed by query position' if is_eval else 'commitment indexed by column',
+                          f'verify_algebraic_constraints, {fam}: `{expr_str(x)[:70]}` indexes ' + ('an evaluation vector (one entry per query) by column index'
+                          if is_eval else 'a commitment vector (one entry per column) by query position') + ': the opening query pairs a commitment with the '
+                          'evaluation of a different query', hirq.fn_loc(f, x))
+    ck.floor('C01.R4', 'indexed evaluation/commitment sites in per-query closures', n_sites, 6)
+    ck.floor('C01.R4', 'query families covered', len(fams), 3)
